@@ -1,3 +1,5 @@
 import PydjinniModel.Props.C05
 import PydjinniModel.Props.C05Front
+import PydjinniModel.Props.C05Spec
+import PydjinniModel.Props.C05SpecPerm
 /-! All C05 theorems. -/
